@@ -370,8 +370,63 @@ def distribution(scenarios, observations):
                                      if g is None and "." not in x and x in ("A", "T0", "T1", "U0", "U1", "V0", "W0"))}
 
 
+def _tree_failures(ts):
+    """One tree rooted at uima.cas.TOP?  Checked from the type objects alone (no cassis query is trusted)."""
+    types = {t.name: t for t in ts.get_types(built_in=True)}
+    out = []
+    for n, t in types.items():
+        cur, steps = t, 0
+        while cur is not None and cur.name != "uima.cas.TOP" and steps <= len(types):
+            cur, steps = cur.supertype, steps + 1
+        if cur is None or cur.name != "uima.cas.TOP":
+            out.append(f"supertype chain of {n} does not reach uima.cas.TOP")
+        if t.supertype is not None:
+            if types.get(t.supertype.name) is not t.supertype:
+                out.append(f"supertype of {n} is not the registered {t.supertype.name}")
+            if sum(1 for c in t.supertype.children if c is t) != 1:
+                out.append(f"{n} is not exactly once among the children of its supertype {t.supertype.name}")
+        for c in t.children:
+            if c.supertype is not t:
+                out.append(f"{c.name} is a child of {n} but its supertype is {c.supertype.name if c.supertype else None}")
+    return out
+
+
+def merge_tree_obligation(cassis, rng, n):
+    """Type systems obtained by merging (the merge rules themselves are C13's subject): whatever merge_typesystems
+    returns must be one tree.  Directed at contradictory / re-parenting inputs; oracle only."""
+    names = ["m.A", "m.B", "m.C", "m.D"]
+    for k in range(n):
+        parts = []
+        for _ in range(rng.choice([2, 2, 3])):
+            order = names[:]
+            rng.shuffle(order)
+            decl = []
+            for i, nm in enumerate(order[:rng.randint(2, 4)]):
+                decl.append([nm, rng.choice(["uima.tcas.Annotation", "uima.cas.TOP"] + [d[0] for d in decl])])
+            parts.append(decl)
+        if k % 3 == 0:  # the contradictory pair: each declares the other's subtype as supertype, below a common chain
+            parts = [[["m.A", "uima.tcas.Annotation"], ["m.B", "m.A"], ["m.C", "m.B"]],
+                     [["m.B", "uima.tcas.Annotation"], ["m.A", "m.B"]] if k % 2 else [["m.C", "uima.tcas.Annotation"], ["m.A", "m.C"]]]
+        tss = []
+        for decl in parts:
+            ts = cassis.TypeSystem()
+            for nm, sup in decl:
+                ts.create_type(nm, sup)
+            tss.append(ts)
+        for perm in ([tss, tss[::-1]]):
+            try:
+                merged = cassis.merge_typesystems(*perm)
+            except ValueError:
+                continue
+            bad = _tree_failures(merged)
+            if bad:
+                return ("merged type systems form one tree", False, bad[0], {"merge_inputs": parts, "reversed": perm is not tss})
+    return (f"merged type systems form one tree ({n} merges of 2-3 inputs, both orders)", True, "ok", None)
+
+
 def extra_checks(ctx):
-    return [T.observed_init_check(ctx["cassis"], ID)]
+    return [T.observed_init_check(ctx["cassis"], ID),
+            merge_tree_obligation(ctx["cassis"], ctx["rng"], 60 if ctx["tier"] == "quick" else 600)]
 
 
 MANIFEST = {
